@@ -44,7 +44,7 @@ REQUIRED_PROBES = ["crash_before_open", "crash_after_truncate", "crash_between_w
 
 
 def budget(tier):
-    return 250 if tier == "quick" else 25_000
+    return 400 if tier == "quick" else 25_000
 
 
 def wall(tier):
@@ -105,7 +105,7 @@ def run(scn) -> RunResult:
             if k1 != "ok":
                 raise RuntimeError(f"reference save failed: {k1} {v1!r}")
             new_image = pw.disk.image(PATH)
-            ops = [ev for ev in pw.disk.journal[j0:] if ev[0] in ("open", "write", "close", "rename", "truncate")]
+            ops = [ev for ev in pw.disk.journal[j0:] if ev[0] in ("open", "write", "close", "rename", "truncate", "remove")]
             nops = pw.disk.nops - base_ops
             h.update(pw.elog.digest().encode())
         finally:
